@@ -17,7 +17,7 @@ ENGINE = {'name': 'timing',
          'matches at once and whose handler blocks in a read until after the timeout, an empty route list whose fallback blocks in a read until '
          'after the timeout (thorough: all floods and phases, 40 random timeout/phase/gap combinations). A scenario failing the oracle is re-run '
          'once before it is reported. Every finished scenario is emitted with its actual start instant and actual send instants for the in-Coq '
-         'run of model/Timing.v (outcome class equal, return instant within [-5 ms, +250 ms] of the model\'s, plus one gap for trickling clients); '
+         'run of model/Timing.v (outcome class equal, return instant within [-5 ms, +400 ms] of the model\'s, plus one gap for trickling clients; the oracle itself uses timeout-5 ms <= t <= timeout+250 ms); '
          'scenarios with an instant within 10-30 ms of a whole wall-clock second or of the deadline are run through the oracle only. '
          'Non-trivial = the client sends after the connection has started; distinct = distinct scenario terms',
  'trusted_base': ['time.Now / timers / goroutine scheduling of the Go runtime; the scripted clients and the zap core that classifies how matching ended (harness)',
